@@ -7,7 +7,7 @@ from checks import numlib
 META = {
     "text": 'Lean: component model Floor (locks held from before the balance read until the log is persisted; the store answers balance reads from the persisted log; every committed posting list touches only accounts in the committer\'s lock sets, sources write-locked and read, and respects the C01 floor against the balances read; reads are consumed by a commit and not taken while the request\'s own log is queued). Theorems (Props/C02.lean, over ALL accepted event sequences): inv_reachable (inductive invariant: lock exclusion, producers of queued logs hold covering locks, recorded reads of write-locked accounts equal the replay of durable++pending, floor fact per entry), log_floor / log_floor_durable / log_floor_at (at its log position every entry added during the run respects the floor against the replay of the entries before it), racing_pair_sum_le / racing_pair_not_both (two debits of one bounded account never jointly exceed what the log prefix provides plus the overdraft), locks_span_persistence, producer_holds_locks, lock_exclusion, reads_are_current, commit_respects_floor_now, funding_is_prefix. The clause the component assumes of a commit (lock coverage) is proved of the source-level semantics Spec for EVERY script, variable map and store: posting_sources_write_locked (every posting source but world is in lockWrite, whichever way the script names it: literal, variable, variable read from metadata), posting_accounts_locked / posting_accounts_in_lock_sets (destinations in lockRead), write_locks_are_read_locks, world_not_locked, balances_read_are_write_locked (every balance read belongs to a write-locked account, or to a save target which is read-locked), posting_sources_were_read, and spec_commit_passes_lock_guards / spec_commit_accepted (a commit of Spec\'s postings by a request holding Spec\'s lock sets passes the guards of Floor.step). Tie: (1) every run of the real Commander under the deterministic scheduler must be accepted by the model (trace validation); (2) the lock sets and postings Spec computes equal what the real compiler + ResolveResources + VM return, input by input (stream numscript:locksets; generated programs include the aliasing shapes: an account in source position that is also the value of a variable which is no source). Oracles, on the implementation\'s outputs alone: fold of the persisted log (no debit beyond what the log provides); every posting source in the reported write set and every posting account in the reported lock sets.',
     "note": 'Trusted: Lean kernel; the event vocabulary and its extraction from the harness trace; scheduler-native locker implementing the C15 contract; Spec as the reading of Numscript (tied to compiler+VM by the differential, lock sets included); exec_floor per commit is checked on the trace (and proved for Spec under C01), not derived from the VM code; that commander.exec locks exactly what ResolveResources returns is seen on the trace (lock events vs committed postings), not proved from source.',
-    "technique": 'Lean 4 proof (inductive invariant of the Floor component; lock coverage by induction over the Spec interpreter) + trace validation of the real Commander under a deterministic scheduler + differential of lock sets Spec vs ResolveResources + log-replay and lock-coverage oracles',
+    "technique": 'Lean 4 proof (inductive invariant of the Floor component; lock coverage by induction over the Spec interpreter) + trace validation of the real Commander under a deterministic scheduler + differential of lock sets Spec vs ResolveResources + log-replay and lock-coverage oracles + regenerated commander skeleton (extract/commander -> Generated/Commander.lean on every run): well-formedness of every control path by decide, refinement of this component by the interpreted skeleton under every schedule, observed runs re-executed in the skeleton system',
     "design_ref": '5 (C02), 3.4, appendix A, appendix B',
 }
 
